@@ -105,6 +105,24 @@ func genInput(rng *rand.Rand, idx int, nRoots int) Input {
 	rich := env.RichAccounts
 	nonce := map[string]uint64{}
 	amounts := []string{"1", "0.5", "0", "0.000000000000000001", "1.0000000000000000001", "3", "8", "5", "999999999", "1000000000", "1000000001", "", "-1", "1e3", "0x10"}
+	if rng.Intn(6) == 0 {
+		// validators of the signing group that pay out to one shared account with different stakes (the
+		// per-block validator reward is then an aggregate over a map of members)
+		in.Group = 1 + rng.Intn(2)
+		acct := common.FromHex(addr(rng.Intn(4)))
+		stakes := []uint64{400, 1300, 450, 800}
+		rng.Shuffle(len(stakes), func(i, j int) { stakes[i], stakes[j] = stakes[j], stakes[i] })
+		for k := 0; k < 2+rng.Intn(2); k++ {
+			src := rich[k%len(rich)]
+			m := types.Miner{Id: minerID(k), PublicKey: minerID(k), VrfPublicKey: minerID(k), Type: common.MinerTypeValidator, Stake: stakes[k]}
+			if k < 2 || rng.Intn(2) == 0 {
+				m.Account = acct
+			}
+			b, _ := json.Marshal(m)
+			in.Txs = append(in.Txs, TxSpec{Kind: "miner-apply", Source: src, Nonce: nonce[src], Tag: fmt.Sprintf("i%d-shared-%d", idx, k), Data: string(b)})
+			nonce[src]++
+		}
+	}
 	for t := 0; t < ntx; t++ {
 		src := rich[rng.Intn(len(rich))]
 		s := TxSpec{Source: src, Nonce: nonce[src], Tag: fmt.Sprintf("i%d-t%d", idx, t)}
